@@ -7,7 +7,11 @@ pub fn property() -> Property {
   Property {
     id: "C20",
     level: "exploration",
-    rule: "scenario 0: the writer script of C04 with WaitForAcknowledgments commands at any point \
+    rule: "scenario 1: a real DataWriter wired to the rig Writer; 0-3 reliable / best-effort readers, \
+           writes, acknowledgments before the call, then async_wait_for_acknowledgments polled by a \
+           strict executor (only when woken) while ACKNACKs (bases last / last+1 / last+2 / 1) and \
+           reader losses arrive. scenario 2: the blocking form on a helper thread in three \
+           timing-robust shapes. scenario 0: the writer script of C04 with WaitForAcknowledgments commands at any point \
            (also two in a row), ACKNACK bases around last / last+1 / last+2 / 0, reader match and \
            loss, 0-4 reliable and best-effort readers; the completion channel is inspected after \
            every step and compared with a model (readers matched and unacknowledged at the call). \
@@ -18,19 +22,335 @@ pub fn property() -> Property {
       "a scripted reader never lowers its ACKNACK base",
       "a second wait replaces the first one (the first is not required to complete)",
     ],
-    scenarios: &[Scenario {
-      id: 0,
-      name: "writer level: completion token vs model",
-      quick: 4_000,
-      thorough: 400_000,
-      max_len: 700,
-      max_threads: 0,
-    }],
+    scenarios: &[
+      Scenario {
+        id: 0,
+        name: "writer level: completion token vs model",
+        quick: 4_000,
+        thorough: 400_000,
+        max_len: 700,
+        max_threads: 0,
+      },
+      Scenario {
+        id: 1,
+        name: "API level: DataWriter::async_wait_for_acknowledgments on a strict executor vs model",
+        quick: 2_000,
+        thorough: 200_000,
+        max_len: 80,
+        max_threads: 0,
+      },
+      Scenario {
+        id: 2,
+        name: "API level: DataWriter::wait_for_acknowledgments (blocking; already true / never true / becomes true)",
+        quick: 12,
+        thorough: 300,
+        max_len: 8,
+        max_threads: 4,
+      },
+    ],
     run,
     exhaustive: None,
   }
 }
 
-pub fn run(_scenario: u32, choices: &[u8], strict: bool) -> Outcome {
-  wscript::run(wscript::Focus::C20, choices, strict)
+pub fn run(scenario: u32, choices: &[u8], strict: bool) -> Outcome {
+  match scenario {
+    1 => {
+      let mut c = super::Choices::new(choices);
+      let mut o = Outcome::new();
+      async_form(&mut c, &mut o);
+      o
+    }
+    2 => {
+      let mut c = super::Choices::new(choices);
+      let mut o = Outcome::new();
+      sync_form(&mut c, &mut o);
+      o
+    }
+    _ => wscript::run(wscript::Focus::C20, choices, strict),
+  }
 }
+
+// ------------------------------------------------------------------ API level (scenarios 1 and 2)
+
+mod api {
+  use std::{
+    collections::BTreeSet,
+    future::Future,
+    sync::{
+      atomic::{AtomicBool, AtomicUsize, Ordering},
+      Arc,
+    },
+    task::{Context, Poll, Wake, Waker},
+    time::{Duration as StdDuration, Instant},
+  };
+
+  use byteorder::LittleEndian;
+
+  use super::super::{
+    c09_badchange::Msg,
+    fnv, frontend, hooks,
+    rig::{self, eid_bytes, CaseGuard, Node},
+    wire, Choices, Outcome, Verdict,
+  };
+  use crate::{
+    dds::qos::{policy, QosPolicies, QosPolicyBuilder},
+    messages::submessages::{submessage::AckSubmessage, submessages::ReaderSubmessage},
+    rtps::{writer::Writer, Message, SubmessageBody},
+    serialization::CDRSerializerAdapter,
+    structure::{duration::Duration, guid::GUID},
+  };
+
+  struct FlagWaker {
+    flag: AtomicBool,
+    count: AtomicUsize,
+  }
+  impl Wake for FlagWaker {
+    fn wake(self: Arc<Self>) {
+      self.flag.store(true, Ordering::SeqCst);
+      self.count.fetch_add(1, Ordering::SeqCst);
+    }
+  }
+
+  fn wqos() -> QosPolicies {
+    QosPolicyBuilder::new()
+      .reliability(policy::Reliability::Reliable {
+        max_blocking_time: Duration::from_secs(1000),
+      })
+      .history(policy::History::KeepAll)
+      .build()
+  }
+
+  fn acknack(writer: &mut Writer, wguid: GUID, reader: GUID, base: i64, count: i32) {
+    let mut dg = wire::rtps_header((2, 4), [1, 0x12], &reader.prefix.bytes);
+    let (f, b) = wire::acknack_body(true, eid_bytes(reader.entity_id), eid_bytes(wguid.entity_id), base, 0, &[], count, true);
+    wire::push_submessage(&mut dg, wire::ACKNACK, f, &b, None);
+    if let Ok(m) = Message::read_from_buffer(&bytes::Bytes::from(dg)) {
+      for sm in m.submessages {
+        if let SubmessageBody::Reader(ReaderSubmessage::AckNack(an, _)) = sm.body {
+          writer.handle_ack_nack(reader.prefix, &AckSubmessage::AckNack(an));
+        }
+      }
+    }
+  }
+
+  struct Setup {
+    node: Node,
+    writer: Writer,
+    wguid: GUID,
+    dw: crate::dds::with_key::datawriter::DataWriter<Msg, CDRSerializerAdapter<Msg, LittleEndian>>,
+  }
+
+  fn setup(topic: &str) -> Setup {
+    let node = Node::new(0);
+    let wguid = GUID::new(node.prefix, rig::user_writer_eid(1, true));
+    let (ing, ends) = rig::writer_ingredients(wguid, topic, &wqos(), 64, 64);
+    let writer = Writer::new(ing, rig::udp_sender(), mio_extras::timer::Builder::default().build(), node.participant_status_tx.clone());
+    let dw = frontend::data_writer::<Msg, CDRSerializerAdapter<Msg, LittleEndian>>(ends, wguid, topic, &wqos());
+    Setup { node, writer, wguid, dw }
+  }
+
+  /// scenario 1: async form, strict executor, single thread, deterministic
+  pub fn async_form(c: &mut Choices, o: &mut Outcome) {
+    let _g = CaseGuard::new();
+    let mut s = setup("rig_topic_c20a");
+    let nreaders = c.pick(4);
+    let readers: Vec<(GUID, bool)> = (0..nreaders)
+      .map(|i| (GUID::new(rig::node_prefix(95 + i as u8), rig::user_reader_eid(1, true)), !c.chance(60)))
+      .collect();
+    for (g, reliable) in &readers {
+      let q = if *reliable { rig::reliable_qos() } else { rig::best_effort_qos() };
+      s.writer.update_reader_proxy(&rig::reader_proxy_for(*g, rig::node_locator(95), &q), &q);
+    }
+    let nwrites = c.pick(4);
+    for i in 0..nwrites {
+      let _ = s.dw.write(Msg { id: i as u32, name: "a".into(), v: 0 }, None);
+    }
+    s.writer.process_writer_command();
+    let last = nwrites as i64;
+    let mut acked: Vec<i64> = vec![0; nreaders];
+    let mut matched: Vec<bool> = vec![true; nreaders];
+    let mut counts = vec![0i32; nreaders];
+    // some acknowledgments before the call
+    for r in 0..nreaders {
+      if c.chance(100) {
+        let base = [last, last + 1, 1, last + 2][c.pick(4)].max(1);
+        counts[r] += 1;
+        acknack(&mut s.writer, s.wguid, readers[r].0, base, counts[r]);
+        acked[r] = acked[r].max(base);
+      }
+    }
+    let pending_at_call: BTreeSet<usize> = (0..nreaders)
+      .filter(|r| matched[*r] && readers[*r].1 && last >= 1 && acked[*r] <= last)
+      .collect();
+    let mut pending = pending_at_call.clone();
+    // later events
+    let nev = c.pick(8);
+    let events: Vec<(usize, u8, i64)> = (0..nev)
+      .map(|_| {
+        let r = if nreaders > 0 { c.pick(nreaders) } else { 0 };
+        (r, c.pick(3) as u8, [last, last + 1, last + 2, 1][c.pick(4)].max(1))
+      })
+      .collect();
+    o.sample = format!("readers={:?} writes={nwrites} acked_before={acked:?} events={events:?}", readers.iter().map(|r| r.1).collect::<Vec<_>>());
+    o.digest = fnv(o.sample.as_bytes());
+    let fw = Arc::new(FlagWaker { flag: AtomicBool::new(true), count: AtomicUsize::new(0) });
+    let waker: Waker = fw.clone().into();
+    let mut fut = Box::pin(s.dw.async_wait_for_acknowledgments());
+    let mut done: Option<bool> = None;
+    let mut step = |writer: &mut Writer, done: &mut Option<bool>, pending: &BTreeSet<usize>, what: &str, o: &mut Outcome| {
+      writer.process_writer_command();
+      if done.is_some() {
+        return;
+      }
+      if fw.flag.swap(false, Ordering::SeqCst) {
+        let mut cx = Context::from_waker(&waker);
+        if let Poll::Ready(r) = fut.as_mut().poll(&mut cx) {
+          match r {
+            Ok(b) => *done = Some(b),
+            Err(e) => {
+              o.violate("c20.async-error", "api", format!("{what}: async_wait_for_acknowledgments failed: {e:?}"));
+              return;
+            }
+          }
+        }
+        // the command may just have been queued: let the writer see it, and poll
+        // again only if that woke us
+        writer.process_writer_command();
+        if done.is_none() && fw.flag.swap(false, Ordering::SeqCst) {
+          let mut cx = Context::from_waker(&waker);
+          if let Poll::Ready(Ok(b)) = fut.as_mut().poll(&mut cx) {
+            *done = Some(b);
+          }
+        }
+      }
+      match (*done, pending.is_empty()) {
+        (Some(true), false) => o.violate(
+          "c20.early-success",
+          "async",
+          format!("{what}: async wait completed with true while reliable readers {pending:?} matched at the call have not acknowledged everything"),
+        ),
+        (Some(false), _) => o.violate("c20.async-false", "async", format!("{what}: async wait returned false (it has no timeout)")),
+        (None, true) => o.violate(
+          "c20.no-success",
+          "async",
+          format!("{what}: the condition holds and the writer has processed everything, but the async wait is still pending (wakes: {})", fw.count.load(Ordering::SeqCst)),
+        ),
+        _ => {}
+      }
+    };
+    step(&mut s.writer, &mut done, &pending, "at the call", o);
+    if o.is_violation() {
+      return;
+    }
+    for (i, (r, kind, base)) in events.iter().enumerate() {
+      if nreaders == 0 {
+        break;
+      }
+      match kind {
+        0 | 1 => {
+          counts[*r] += 1;
+          let b = (*base).max(acked[*r]);
+          acknack(&mut s.writer, s.wguid, readers[*r].0, b, counts[*r]);
+          acked[*r] = b;
+          if matched[*r] && readers[*r].1 && b > last {
+            pending.remove(r);
+          }
+        }
+        _ => {
+          s.writer.reader_lost(readers[*r].0);
+          matched[*r] = false;
+          pending.remove(r);
+          o.label("reader-lost");
+        }
+      }
+      step(&mut s.writer, &mut done, &pending, &format!("after event {i}"), o);
+      if o.is_violation() {
+        return;
+      }
+    }
+    o.label(if pending_at_call.is_empty() { "true-at-call" } else { "pending-at-call" });
+    o.label("async");
+    o.nontrivial = !pending_at_call.is_empty();
+    drop(fut);
+    let _ = hooks::capture_drain();
+    frontend::drain_discovery_commands();
+  }
+
+  /// scenario 2: synchronous form, three timing-robust shapes
+  pub fn sync_form(c: &mut Choices, o: &mut Outcome) {
+    let _g = CaseGuard::new();
+    let shape = c.pick(3);
+    let nwrites = 1 + c.pick(3);
+    let s = setup("rig_topic_c20s");
+    let Setup { node, mut writer, wguid, dw } = s;
+    let reader = GUID::new(rig::node_prefix(96), rig::user_reader_eid(1, true));
+    writer.update_reader_proxy(&rig::reader_proxy_for(reader, rig::node_locator(96), &rig::reliable_qos()), &rig::reliable_qos());
+    for i in 0..nwrites {
+      let _ = dw.write(Msg { id: i as u32, name: "s".into(), v: 0 }, None);
+    }
+    writer.process_writer_command();
+    let last = nwrites as i64;
+    o.sample = format!("shape={} writes={nwrites}", ["already-true", "never-true", "becomes-true-after-the-call"][shape]);
+    o.digest = fnv(o.sample.as_bytes());
+    o.label(["sync-already-true", "sync-never-true", "sync-becomes-true"][shape]);
+    o.nontrivial = true;
+    if shape == 0 {
+      acknack(&mut writer, wguid, reader, last + 1, 1);
+    }
+    let max_wait = if shape == 1 { StdDuration::from_millis(150) } else { StdDuration::from_secs(10) };
+    let finished = Arc::new(AtomicBool::new(false));
+    let f2 = Arc::clone(&finished);
+    let helper = std::thread::spawn(move || {
+      let t0 = Instant::now();
+      let r = dw.wait_for_acknowledgments(max_wait);
+      f2.store(true, Ordering::SeqCst);
+      (r.map_err(|e| format!("{e:?}")), t0.elapsed(), dw)
+    });
+    // the rig thread plays the event loop
+    let t0 = Instant::now();
+    let mut delivered_ack = false;
+    while !finished.load(Ordering::SeqCst) && t0.elapsed() < StdDuration::from_secs(30) {
+      writer.process_writer_command();
+      if shape == 2 && !delivered_ack && writer.verif_ack_waiter().is_some() {
+        // the helper is known to be waiting now
+        acknack(&mut writer, wguid, reader, last + 1, 1);
+        delivered_ack = true;
+      }
+      std::thread::sleep(StdDuration::from_millis(1));
+    }
+    let (r, elapsed, dw) = match helper.join() {
+      Ok(x) => x,
+      Err(_) => {
+        o.violate("c20.sync-panic", "api", "wait_for_acknowledgments panicked".into());
+        return;
+      }
+    };
+    match (shape, r) {
+      (0, Ok(true)) | (2, Ok(true)) => {
+        if elapsed >= StdDuration::from_secs(10) {
+          o.violate("c20.sync-late", "api", format!("success only after {elapsed:?}"));
+        }
+      }
+      (1, Ok(false)) => {
+        if elapsed < StdDuration::from_millis(145) {
+          o.violate("c20.sync-early-timeout", "api", format!("timeout reported after {elapsed:?}, requested 150 ms"));
+        }
+      }
+      (1, Ok(true)) => o.violate("c20.early-success", "sync", "wait_for_acknowledgments returned true although the reader never acknowledged".into()),
+      (_, Ok(false)) => o.violate(
+        "c20.no-success",
+        "sync",
+        format!("wait_for_acknowledgments timed out after {elapsed:?} although the acknowledgment {}", if shape == 0 { "had arrived before the call" } else { "arrived during the wait" }),
+      ),
+      (_, Err(e)) => o.violate("c20.sync-error", "api", e),
+      _ => {}
+    }
+    drop(dw);
+    drop(node);
+    let _ = hooks::capture_drain();
+    frontend::drain_discovery_commands();
+  }
+}
+
+pub use api::{async_form, sync_form};
